@@ -767,8 +767,15 @@ def check_C14(c):
                 reqs.append(block)
     # each cell in its own process (a deadlock ends the process)
     n_cells = 0
+    confirmed = 0
     for (off, ln, kind_, aname, p), block in zip(meta, reqs):
         impl = run_impl(block, flush=True, timeout=60)
+        if impl and "DEADLOCK" in impl[-1] and confirmed < 3:
+            # the watchdog (3 s) fired: make sure it was not a slow machine — once more with a 20 s watchdog (only for the
+            # first few cells: a tree that really deadlocks does so in many)
+            impl = run_impl(block, flush=True, timeout=90, watchdog_ms=20000)
+            if impl and "DEADLOCK" in impl[-1]:
+                confirmed += 1
         model = run_model(block)
         st = Stream("re-entrancy cell %s × %s" % (kind_, aname), block, impl, model)
         n_cells += 1
